@@ -7,7 +7,7 @@
 From Coq Require Import List ZArith Bool Arith Lia.
 From CM Require Import Gen.Consts.
 From CM Require FileLock.Model FileLock.Proofs FileLock.Check.
-From CM Require Import System.LockRefine System.LockEvent System.LockCompose.
+From CM Require Import System.LockRefine System.LockEvent System.LockCompose System.LockCrash.
 From CM Require Import Issuance.Model Issuance.Proofs Issuance.Invariants.
 Import ListNotations.
 Close Scope N_scope.
@@ -65,6 +65,39 @@ Theorem repo_locked_region_holds_lock_file cs st ls s F t th :
   exists i, FL.cs (F (c_lk (cfg th))) t = FL.CHolding i /\ FL.file (F (c_lk (cfg th))) = Some i /\
             FL.hb (F (c_lk (cfg th))) i <> FL.HNone.
 Proof. exact (locked_region_holds_lock_file c (repo_checks d) (repo_guard d) (repo_good d Hd) cs st ls s F t th). Qed.
+
+Theorem repo_release_never_refused cs st s F t th r b :
+  reachable cs st s -> Coupled s F -> FInv c F -> thread_at s t th -> tpc th = PUnlock r ->
+  exists s1 x, step s (Label t FNone b) = Some (s1, Ev t (OUnlock (c_lk (cfg th))) 0) /\
+               FL.step c (F (c_lk (cfg th))) (FL.LUnlock t) = Some x.
+Proof. exact (release_never_refused c cs st s F t th r b). Qed.
+
+Theorem repo_lock_file_holder_is_owner cs st ls s F k t i :
+  iruns c (iinit cs st) ls (s, F) -> FL.cs (F k) t = FL.CHolding i ->
+  lks (sh s) k = Some t /\
+  forall t' th', thread_at s t' th' -> c_lk (cfg th') = k -> locked (tpc th') = true -> t' = t.
+Proof. exact (lock_file_holder_is_owner c (repo_checks d) (repo_guard d) (repo_good d Hd) cs st ls s F k t i). Qed.
+
+Theorem repo_impl_locks_released cs st ls s F t th :
+  iruns_ok c (unlock_ok_for t) (iinit cs st) ls (s, F) ->
+  thread_at s t th -> final_pc (tpc th) = true ->
+  recd th = false /\ forall k i, FL.cs (F k) t <> FL.CHolding i.
+Proof. exact (impl_locks_released c (repo_checks d) (repo_guard d) (repo_good d Hd) cs st ls s F t th). Qed.
+
+Theorem repo_crash_refines_locker ls es s : cruns c FL.init ls es s -> lk3_run KFree es = Some (abs3 s).
+Proof. exact (crash_refines_locker c (repo_checks d) (repo_good d Hd) ls es s). Qed.
+
+Theorem repo_mutex_with_crashes ls es s t1 t2 i1 i2 : cruns c FL.init ls es s ->
+  FL.cs s t1 = FL.CHolding i1 -> FL.cs s t2 = FL.CHolding i2 -> t1 = t2.
+Proof. exact (mutex_with_crashes c (repo_checks d) (repo_good d Hd) ls es s t1 t2 i1 i2). Qed.
+
+Theorem repo_crash_is_release_for_issuance s l s' : XInv c s -> remove_ok s l -> FL.step c s l = Some s' ->
+  match vis3 s l with
+  | Some (EAcq t) => lk_step (collapse (abs3 s)) (LAcq t) = Some (collapse (abs3 s'))
+  | Some (ERel t) | Some (ECrash t) => lk_step (collapse (abs3 s)) (LRel t) = Some (collapse (abs3 s'))
+  | Some EStale | None => collapse (abs3 s') = collapse (abs3 s)
+  end.
+Proof. exact (crash_sim_step_collapsed c (repo_checks d) (repo_good d Hd) s l s'). Qed.
 End Repo.
 
 (** * A concrete run *)
